@@ -936,6 +936,30 @@ theorem pres_onSigchld (fuel : Nat) : ∀ (st : St) (this : Option Nat), Pres st
         · exact (grow_fail _ _).pres
         · exact (pres_procStep _ _).trans (ih _ _)
 
+theorem pres_procSnapLoop (l : List Nat) : ∀ st : St, Pres st (procSnapLoop st l) := by
+  induction l with
+  | nil => intro st; exact Pres.refl st
+  | cons a rest ih =>
+    intro st
+    unfold procSnapLoop
+    split
+    · exact Pres.refl _
+    · split
+      · exact (grow_fail _ _).pres
+      · split
+        · exact ih _
+        · split
+          · exact (grow_fail _ _).pres
+          · exact (pres_procStep _ _).trans (ih _)
+
+theorem pres_onSigchldAny (fuel : Nat) (st : St) : Pres st (onSigchldAny fuel st) := by
+  unfold onSigchldAny
+  split
+  · split
+    · exact (grow_fail _ _).pres
+    · exact pres_procSnapLoop _ _
+  · exact pres_onSigchld _ _ _
+
 theorem pres_processNotify (st : St) (a : Nat) : Pres st (processNotify st a) := by
   unfold processNotify
   split
@@ -1047,7 +1071,7 @@ theorem pres_sigCb (fuel : Nat) (st : St) (a : Nat) (s : Int) : Pres st (sigCb f
   · split
     · exact pres_fireUser _ _ _ _
     · split
-      · exact pres_onSigchld _ _ _
+      · exact pres_onSigchldAny _ _
       · split
         · exact (grow_with_stillRunning _ _).pres
         · exact Pres.refl _
@@ -1074,6 +1098,30 @@ theorem pres_sigwatchLoopT (fuel : Nat) : ∀ (st : St) (s : Int) (this : Option
 theorem pres_sigwatchLoop (fuel : Nat) (st : St) (s : Int) (this : Option Nat) : Pres st (sigwatchLoop fuel st s this) :=
   pres_sigwatchLoopT fuel st s this
 
+theorem pres_sigSnapLoopT (fuel : Nat) (s : Int) (l : List Nat) : ∀ st : St, Pres st (sigSnapLoopT fuel st s l).1 := by
+  induction l with
+  | nil => intro st; exact Pres.refl st
+  | cons a rest ih =>
+    intro st
+    unfold sigSnapLoopT
+    split
+    · exact Pres.refl _
+    · split
+      · exact (grow_fail _ _).pres
+      · split
+        · exact ih _
+        · split
+          · exact (grow_fail _ _).pres
+          · exact (pres_sigCb _ _ _ _).trans (ih _)
+
+theorem pres_sigDispatch (fuel : Nat) (st : St) (s : Int) : Pres st (sigDispatch fuel st s) := by
+  unfold sigDispatch
+  split
+  · split
+    · exact (grow_fail _ _).pres
+    · exact pres_sigSnapLoopT _ _ _ _
+  · exact pres_sigwatchLoop _ _ _ _
+
 theorem pres_dispatchLoop (fuel : Nat) (pending : List Int) (l : List Int) : ∀ st : St, Pres st (dispatchLoop fuel st pending l) := by
   induction l with
   | nil => intro st; exact Pres.refl st
@@ -1082,7 +1130,7 @@ theorem pres_dispatchLoop (fuel : Nat) (pending : List Int) (l : List Int) : ∀
     unfold dispatchLoop
     refine Pres.trans ?_ (ih _)
     split
-    · exact pres_sigwatchLoop _ _ _ _
+    · exact pres_sigDispatch _ _ _
     · exact Pres.refl _
 
 theorem grow_with_pendingSig (st : St) (l : List Int) : Grow st { st with pendingSig := l } := Grow.of_eq rfl rfl
